@@ -246,6 +246,52 @@ def arbitrary(n, lang='en'):
     return trees
 
 
+@functools.lru_cache(None)
+def long_trees(lang='en'):
+    """a few deep shapes with 11-13 leaves (two-digit offsets): left-branching, right-branching, balanced; head directions alternate"""
+    cats = ARB_CATS if lang == 'en' else ARB_JA_CATS
+    labels = ARB_LABELS if lang == 'en' else ARB_JA_LABELS
+    out = []
+
+    def build(shape, n):
+        ctr = {'leaf': 0, 'node': 0}
+
+        def leaf():
+            i = ctr['leaf']
+            ctr['leaf'] += 1
+            return ('L', cats[i % len(cats)], i)
+
+        def node(l, r):
+            ctr['node'] += 1
+            j = ctr['node']
+            lb = labels[j % len(labels)]
+            return ('B', cats[(j + 1) % len(cats)], (lb[0], lb[1], j % 2 == 0), l, r)
+        if shape == 'left':
+            t = leaf()
+            for _ in range(n - 1):
+                t = node(t, leaf())
+            return t
+        if shape == 'right':
+            def rec(k):
+                if k == 1:
+                    return leaf()
+                l = leaf()
+                return node(l, rec(k - 1))
+            return rec(n)
+
+        def bal(k):
+            if k == 1:
+                return leaf()
+            l = bal(k // 2)
+            r = bal(k - k // 2)
+            return node(l, r)
+        return bal(n)
+    for n in (11, 12, 13):
+        for shape in ('left', 'right', 'balanced'):
+            out.append(build(shape, n))
+    return out
+
+
 def count_nodes(s, kind):
     if s == 'L':
         return 0
